@@ -1,15 +1,14 @@
 (* The Go source of util.RangeToIndexes, translated statement by statement on every run
-   (gen/Funcs.v), is the model's range_to_indexes - so every theorem that mentions position
-   normalisation (C04, C09, C10, C19) is about the code as it is now. A change to the Go
-   function that changes its meaning breaks this proof. *)
+   (gen/Funcs.v, with whatever helper functions it calls), is the model's range_to_indexes - so
+   every theorem that mentions position normalisation (C04, C09, C10, C19) is about the code as
+   it is now. A change to the Go function that changes its meaning breaks this proof. *)
 From Coq Require Import List Bool ZArith Lia ZifyBool.
-From Rosed Require Import Model.Util gen.Funcs.
+From Rosed Require Import Model.Util Inst.GoRt Inst.GoTac gen.Funcs.
 Open Scope Z_scope.
 
 (* for every size a text can have (sizes are lengths, never negative) *)
 Theorem go_range_to_indexes_eq : forall size s e, 0 <= size -> go_RangeToIndexes size s e = range_to_indexes size s e.
 Proof.
-  intros size s e Hsize. unfold go_RangeToIndexes, range_to_indexes.
-  repeat (cbv zeta beta iota; match goal with |- context [if ?c then _ else _] => destruct c eqn:? end);
-    cbv zeta beta iota; f_equal; lia.
+  intros size s e Hsize. unfold go_RangeToIndexes, range_to_indexes. autounfold with go_defs.
+  repeat (cbv zeta beta iota; split_if); cbv zeta beta iota; f_equal; lia.
 Qed.
